@@ -39,7 +39,7 @@ type nodeStats struct {
 	Samples                                                []string
 	Notes                                                  []string
 	Scenarios                                              int
-	C08Compared, C08Resets, TwoRoundScenarios, C08InDealsWindow int
+	C08Compared, C08Resets, TwoRoundScenarios, C08InDealsWindow, ReinitProbes int
 	CancelledRounds                                        int
 }
 
@@ -682,6 +682,7 @@ func (r *nodeRun) scenario(outDir string, n, t int, twoRounds bool) {
 			r.st.Notes = append(r.st.Notes, fmt.Sprintf("after DKG %s is in %s", nd.name, st))
 		}
 	}
+	r.reinitProbes(c, obs, round)
 	// two signing batches, one with a late signer
 	for b := 0; b < 2; b++ {
 		prop := c.nodes[r.rng.Intn(n)]
@@ -786,4 +787,46 @@ func runNodeDiff(outDir string, seed int64, tier string) {
 	restore()
 	fmt.Printf("nodediff: ops=%d genuine=%d mutated=%d accepted=%d rejected=%d panics=%d monitors=%d\n", r.st.Ops, r.st.Genuine, r.st.Mutated, r.st.Accepted, r.st.Rejected, r.st.Panics, len(r.st.Monitors))
 	_ = bytes.Equal
+}
+
+
+// reinitProbes: crafted re-initialisation messages from a stranger. A reinit message may create the round it names
+// (like an opening proposal, it is confirmed out of band); it must not touch any round that exists. The node is rolled
+// back after each probe (the Lean node model does not cover the reinit handler).
+func (r *nodeRun) reinitProbes(c *cluster, obs *vnode, round string) {
+	decline, _ := json.Marshal(map[string]interface{}{"ParticipantId": 0, "CreatedAt": time.Now().Format(time.RFC3339Nano)})
+	errRep, _ := json.Marshal(map[string]interface{}{"ParticipantId": 0, "Error": map[string]string{"ErrorMsg": "forged"}, "CreatedAt": time.Now().Format(time.RFC3339Nano)})
+	inner := []storage.Message{
+		{ID: "inj-1", DkgRoundID: round, Event: "event_sig_proposal_decline_by_participant", Data: decline, SenderAddr: "stranger"},
+		{ID: "inj-2", DkgRoundID: round, Event: "event_dkg_master_key_confirm_canceled_by_error", Data: errRep, SenderAddr: "stranger"},
+		{ID: "inj-3", DkgRoundID: round, Event: "event_signing_partial_sign_error_received", Data: errRep, SenderAddr: "stranger"},
+	}
+	probe := func(name, envelope, dkgID string) {
+		re := ctypes.ReDKG{DKGID: dkgID, Threshold: 2, Messages: inner}
+		payload, _ := json.Marshal(re)
+		m := storage.Message{ID: "probe-" + name, DkgRoundID: envelope, Event: "reinit_dkg", Data: payload, SenderAddr: "stranger"}
+		snap := rawSnap(obs)
+		before := publicProj(obs, round)
+		beforeAll := nodeRender(obs)
+		func() {
+			defer func() {
+				if rec := recover(); rec != nil {
+					r.mon(fmt.Sprintf("C18 never_panics: ProcessMessage panicked on a crafted reinit message (%s)", name))
+				}
+			}()
+			obs.svc.ProcessMessage(m)
+		}()
+		after := publicProj(obs, round)
+		r.st.ReinitProbes++
+		if after != before {
+			r.mon(fmt.Sprintf("C08 round_noninterference: a re-initialisation message (%s: envelope round %.8s…, dkg_id %.8s…) posted by a stranger changed the existing round %.8s… %s", name, envelope, dkgID, round, firstDiff(before, after)))
+		}
+		rawRestore(obs, snap)
+		// the round the probe created is not in the snapshot's signature keys: remove what it added
+		if back := nodeRender(obs); back != beforeAll {
+			r.mon("harness: rollback after a reinit probe did not restore the node state")
+		}
+	}
+	probe("fresh id, inner messages of an existing round", "fresh-round-x", "fresh-round-x")
+	probe("envelope names an existing round, dkg_id fresh", round, "fresh-round-y")
 }
